@@ -207,7 +207,7 @@ def check_property(prop, tier, seed, replay=None):
                 broken.append("props/%s does not match its pinned statement hash" % fn)
         # ---- proof obligations
         targets = (["props/%s.vo" % prop.MODULE] if prop.MODULE else []) + list(prop.EXTRA_TARGETS) + \
-                  ["model/Run.vo", "model/Extra.vo", "model/Hyp.vo", "gen/Kernels.vo", "proofs/QuarticFloat.vo", "proofs/QuarticClosedFloat.vo", "props/C09F.vo", "props/C11F.vo", "proofs/SplineFloat.vo"]
+                  ["model/Run.vo", "model/Extra.vo", "model/Hyp.vo", "gen/Kernels.vo", "proofs/QuarticFloat.vo", "proofs/QuarticClosedFloat.vo", "props/C09F.vo", "props/C11F.vo", "props/C11L.vo", "proofs/SplineFloat.vo"]
         ok_make, mlog = C.coq_make(targets)
         checker_cmd = "cd coq && make -j%d %s" % (C.NCPU, " ".join(targets))
         obligations = len(prop.THEOREMS) + n_gen
